@@ -64,6 +64,10 @@ type RepExpect struct {
 	Fire           bool // the breaker must fire on this connection error
 	ElapsedOver    bool
 	N, Need        int64 // gradual counters expected after the event (checked against the real strategy)
+	// status / fused-down flag of the replica at the moment the event's decision is taken:
+	// the values before the event, except in a replica round with a fuse landing inside it,
+	// where they are the values right after that fuse
+	WasUp, WasFusedDown bool
 }
 
 // Expect is what the statements allow after one event.
@@ -89,7 +93,12 @@ func (r *Ref) gateOpen(p *RepRef) bool {
 
 // Step advances the reference over a primitive event and returns the expectation. The
 // caller then reports the statuses the implementation really has through Commit.
-func (r *Ref) Step(e Event) Expect {
+//
+// hookFired (replica rounds with e.F set): whether the probe position e.F of replica e.I was
+// reached in this round, i.e. whether the in-round connection error was delivered at all
+// (an observation of which probes were executed, e.g. `show slave status` is not asked while
+// the master is down).
+func (r *Ref) Step(e Event, hookFired bool) Expect {
 	x := Expect{Rep: make([]RepExpect, len(r.Rep))}
 	x.MasterMayUp, x.MasterMayDown = same(r.MasterUp)
 	x.MasterRule = "unchanged:no_probe_of_this_node"
@@ -97,6 +106,7 @@ func (r *Ref) Step(e Event) Expect {
 		x.Rep[i].MayUp, x.Rep[i].MayDown = same(p.Up)
 		x.Rep[i].Rule = "unchanged:no_probe_of_this_node"
 		x.Rep[i].GateOpen = r.gateOpen(p)
+		x.Rep[i].WasUp, x.Rep[i].WasFusedDown = p.Up, p.FusedDown
 	}
 	da := int64(r.Cfg.DownAfter)
 	switch e.K {
@@ -108,46 +118,9 @@ func (r *Ref) Step(e Event) Expect {
 		// replica earlier gets its connection error now, whatever the replica's status is.
 		// Both record a connection error FOR THAT REPLICA ONLY; its breaker fires when its
 		// window reaches M.
-		p, xr := r.Rep[e.I], &x.Rep[e.I]
-		if (e.K == "L" || p.Up) && r.Cfg.Policy != "none" {
-			p.Errs = append(p.Errs, r.Now)
-			in := int64(0)
-			for _, t := range p.Errs {
-				if t > r.Now-r.Cfg.W && t <= r.Now {
-					in++
-				}
-			}
-			if r.Cfg.W > 0 && r.Cfg.M > 0 && in >= r.Cfg.M {
-				xr.Fire = true
-				wasUp := p.Up
-				// a fuse marks the replica down; on a replica that is already down it changes no status
-				xr.MayUp, xr.MayDown = false, true
-				xr.Rule = "down:breaker_fired"
-				if !wasUp {
-					xr.Rule = "unchanged:breaker_fired_on_down_replica"
-				}
-				p.FusedDown = true
-				switch r.Cfg.Policy {
-				case "hard":
-					// "the configured cool-down since its LATEST fuse": every fuse counts,
-					// also one that hits a replica that is already down
-					p.Fused, p.LastFuse = true, r.Now
-				case "gradual":
-					// node_fuse.go documents UpdateFuseTime / the bad-recovery bookkeeping as
-					// "called when the node goes StatusUp -> StatusDown": a fuse on a replica that
-					// is already down is not a new failure after a recovery and changes nothing
-					p.Fused = true
-					if wasUp {
-						p.LastFuse = r.Now
-						if r.Now-p.LastRecovery <= 2*PingPeriod {
-							p.N++
-							p.Need = penalty(p.N)
-						} else {
-							p.N = 3
-						}
-					}
-				}
-			}
+		p := r.Rep[e.I]
+		if e.K == "L" || p.Up {
+			r.connError(p, &x.Rep[e.I])
 		}
 	case "M":
 		x.Round = "M"
@@ -167,6 +140,18 @@ func (r *Ref) Step(e Event) Expect {
 		}
 	case "R":
 		x.Round = "R"
+		// A connection error that lands inside the round (at a probe position that was
+		// reached): every position lies before the round reads the replica's status and
+		// recovery state for its decision (the liveness / master checks before "sync" read
+		// neither), so the round must decide as if the error had arrived just before it —
+		// in particular a fuse that fires here restarts the cool-down / is the latest failure.
+		if e.F != "" && hookFired {
+			p, xr := r.Rep[e.I], &x.Rep[e.I]
+			if r.connError(p, xr) {
+				p.Up = false // the breaker marked it down; the rest of the round sees a down replica
+			}
+			xr.WasUp, xr.WasFusedDown = p.Up, p.FusedDown
+		}
 		// the loop probes every replica of the group in this tick, each on its own
 		for i, p := range r.Rep {
 			r.replicaRound(p, &x.Rep[i], e.Out(i))
@@ -176,6 +161,55 @@ func (r *Ref) Step(e Event) Expect {
 		x.Rep[i].N, x.Rep[i].Need = p.N, p.Need
 	}
 	return x
+}
+
+// connError records one connection error for replica p at the current time and, when its
+// window reaches the threshold, fires its breaker (see the comments inside). It reports
+// whether the breaker fired.
+func (r *Ref) connError(p *RepRef, xr *RepExpect) bool {
+	if r.Cfg.Policy == "none" {
+		return false
+	}
+	p.Errs = append(p.Errs, r.Now)
+	in := int64(0)
+	for _, t := range p.Errs {
+		if t > r.Now-r.Cfg.W && t <= r.Now {
+			in++
+		}
+	}
+	if !(r.Cfg.W > 0 && r.Cfg.M > 0 && in >= r.Cfg.M) {
+		return false
+	}
+	xr.Fire = true
+	wasUp := p.Up
+	// a fuse marks the replica down; on a replica that is already down it changes no status
+	xr.MayUp, xr.MayDown = false, true
+	xr.Rule = "down:breaker_fired"
+	if !wasUp {
+		xr.Rule = "unchanged:breaker_fired_on_down_replica"
+	}
+	p.FusedDown = true
+	switch r.Cfg.Policy {
+	case "hard":
+		// "the configured cool-down since its LATEST fuse": every fuse counts, also one
+		// that hits a replica that is already down
+		p.Fused, p.LastFuse = true, r.Now
+	case "gradual":
+		// node_fuse.go documents UpdateFuseTime / the bad-recovery bookkeeping as "called
+		// when the node goes StatusUp -> StatusDown": a fuse on a replica that is already
+		// down is not a new failure after a recovery and changes nothing
+		p.Fused = true
+		if wasUp {
+			p.LastFuse = r.Now
+			if r.Now-p.LastRecovery <= 2*PingPeriod {
+				p.N++
+				p.Need = penalty(p.N)
+			} else {
+				p.N = 3
+			}
+		}
+	}
+	return true
 }
 
 func (r *Ref) replicaRound(p *RepRef, x *RepExpect, out string) {
